@@ -501,7 +501,8 @@ Lemma type_ne_bytes : K_BYTES <> K_TYPE. Proof. apply str_eqb_neq. vm_compute. r
 (* ------------------------------------------------------------------------------------------ *)
 Section RT.
   Variables (enc : bytes -> str) (dec : str -> option bytes) (isspace : N -> bool) (R : registry).
-  Hypothesis dec_enc : forall b, dec (enc b) = Some b.
+  Variable okb : bytes -> bool.          (* the byte strings on which the codec law is assumed *)
+  Hypothesis dec_enc : forall b, okb b = true -> dec (enc b) = Some b.
   Hypothesis Rwf : registry_wf R = true.
 
   Notation deser' := (deser dec isspace R).
@@ -698,29 +699,32 @@ Section RT.
   (* sequences (list / tuple / set) share one argument *)
   Lemma seq_roundtrip (l : list val) T :
     Forall (fun v => forall T, has_type' v T = true -> keys_not_markers v = true ->
+                               payloads_ok okb v = true ->
                                deser' false (serialize enc true v) T = Some (canon v)) l ->
     match unwrap_optional T with
     | TList a => forallb (fun x => has_type' x (elem_ty a)) l
     | _ => forallb plain l
     end = true ->
     forallb keys_not_markers l = true ->
+    forallb (payloads_ok okb) l = true ->
     deser' false (JList (map (serialize enc true) l)) T = Some (VList (map canon l)).
   Proof.
-    intros IH H K. rewrite Forall_forall in IH. cbn [deser].
+    intros IH H K B. rewrite Forall_forall in IH. cbn [deser].
     assert (Hplain : forallb plain l = true ->
                      Some (embed (JList (map (serialize enc true) l))) = Some (VList (map canon l))).
     { intro Hp. cbn [embed]. f_equal. f_equal. rewrite map_map. apply map_ext_in.
       intros x Hx. apply embed_plain. exact (forallb_In _ _ _ Hp Hx). }
     destruct (unwrap_optional T) as [| | | | | |a| | | |]; try (exact (Hplain H)).
     rewrite map_map. rewrite (sequence_map_some _ canon); [reflexivity|].
-    intros x Hx. apply IH; [exact Hx | exact (forallb_In _ _ _ H Hx) | exact (forallb_In _ _ _ K Hx)].
+    intros x Hx. apply IH; [exact Hx | exact (forallb_In _ _ _ H Hx) | exact (forallb_In _ _ _ K Hx)
+                            | exact (forallb_In _ _ _ B Hx)].
   Qed.
 
-  Theorem roundtrip_value : forall v T,
-    has_type' v T = true -> keys_not_markers v = true ->
+  Theorem roundtrip_value_ok : forall v T,
+    has_type' v T = true -> keys_not_markers v = true -> payloads_ok okb v = true ->
     deser' false (serialize enc true v) T = Some (canon v).
   Proof.
-    induction v as [| | | | | | | |l IH|l IH|l IH|kvs IH|c fl IH|] using val_ind'; intros T H K.
+    induction v as [| | | | | | | |l IH|l IH|l IH|kvs IH|c fl IH|] using val_ind'; intros T H K B.
     - reflexivity.
     - reflexivity.
     - reflexivity.
@@ -731,20 +735,20 @@ Section RT.
     - (* VBytes *)
       cbn [serialize canon]. rewrite deser_obj. cbn [negb andb].
       rewrite has_key_singleton_bytes_io, has_key_singleton_bytes, assoc_singleton_bytes.
-      cbn [b64_bytes]. rewrite dec_enc. reflexivity.
+      cbn [b64_bytes]. cbn [payloads_ok] in B. rewrite (dec_enc _ B). reflexivity.
     - (* VBytearray *)
       cbn [serialize canon]. rewrite deser_obj. cbn [negb andb].
       rewrite has_key_singleton_bytes_io, has_key_singleton_bytes, assoc_singleton_bytes.
-      cbn [b64_bytes]. rewrite dec_enc. reflexivity.
+      cbn [b64_bytes]. cbn [payloads_ok] in B. rewrite (dec_enc _ B). reflexivity.
     - (* VBytesIO *)
       cbn [serialize canon]. rewrite bytesio_b64. rewrite deser_obj. cbn [negb andb].
       rewrite has_key_singleton_bytesio, assoc_singleton_bytesio.
-      cbn [b64_bytes]. rewrite dec_enc. reflexivity.
-    - cbn [has_type] in H. cbn [keys_not_markers] in K. cbn [serialize canon].
+      cbn [b64_bytes]. cbn [payloads_ok] in B. rewrite (dec_enc _ B). reflexivity.
+    - cbn [has_type] in H. cbn [keys_not_markers] in K. cbn [payloads_ok] in B. cbn [serialize canon].
       apply seq_roundtrip; assumption.
-    - cbn [has_type] in H. cbn [keys_not_markers] in K. cbn [serialize canon].
+    - cbn [has_type] in H. cbn [keys_not_markers] in K. cbn [payloads_ok] in B. cbn [serialize canon].
       apply seq_roundtrip; assumption.
-    - cbn [has_type] in H. cbn [keys_not_markers] in K. cbn [serialize canon].
+    - cbn [has_type] in H. cbn [keys_not_markers] in K. cbn [payloads_ok] in B. cbn [serialize canon].
       apply seq_roundtrip; assumption.
     - (* VDict *)
       cbn [keys_not_markers] in K.
@@ -771,28 +775,32 @@ Section RT.
         * intros [k x] Hin. unfold vmap. cbn [fst snd].
           destruct (rk_dict_In _ _ _ Hin) as [k0 [Hin0 _]].
           rewrite Forall_forall in IH. pose proof (IH (k0, x) Hin0 (value_ty kv)) as IHx.
-          cbn [snd] in IHx. rewrite IHx; [reflexivity| |].
+          cbn [snd] in IHx. rewrite IHx; [reflexivity| | |].
           -- exact (forallb_In _ _ _ H Hin0).
           -- pose proof (forallb_In _ _ _ K Hin0) as Hk. cbv beta in Hk.
              apply andb_true_iff in Hk. destruct Hk as [_ Hk]. exact Hk.
+          -- cbn [payloads_ok] in B. exact (forallb_In _ _ _ B Hin0).
     - (* VData *)
       destruct (has_type_data c fl T H) as [k [Hfind [Habs HF]]].
       apply (data_roundtrip false c fl k T Hfind Habs HF).
       intros nv Hnv T' HT. rewrite Forall_forall in IH. apply (IH nv Hnv T' HT).
-      cbn [keys_not_markers] in K. exact (forallb_In _ _ _ K Hnv).
+      + cbn [keys_not_markers] in K. exact (forallb_In _ _ _ K Hnv).
+      + cbn [payloads_ok] in B. exact (forallb_In _ _ _ B Hnv).
     - reflexivity.
   Qed.
 
-  Theorem roundtrip_top : forall c fl,
+  Theorem roundtrip_top_ok : forall c fl,
     has_type' (VData c fl) TAny = true -> keys_not_markers (VData c fl) = true ->
+    payloads_ok okb (VData c fl) = true ->
     from_json dec isspace R (to_json enc (VData c fl)) = Some (canon (VData c fl)).
   Proof.
-    intros c fl H K.
+    intros c fl H K B.
     destruct (has_type_data c fl TAny H) as [k [Hfind [Habs HF]]].
     assert (E : deser' true (serialize enc true (VData c fl)) TAny = Some (canon (VData c fl))).
     { apply (data_roundtrip true c fl k TAny Hfind Habs HF).
-      intros nv Hnv T' HT. apply roundtrip_value; [exact HT|].
-      cbn [keys_not_markers] in K. exact (forallb_In _ _ _ K Hnv). }
+      intros nv Hnv T' HT. apply roundtrip_value_ok; [exact HT| |].
+      - cbn [keys_not_markers] in K. exact (forallb_In _ _ _ K Hnv).
+      - cbn [payloads_ok] in B. exact (forallb_In _ _ _ B Hnv). }
     unfold to_json, serialize_extraction.
     rewrite serialize_data in *. unfold from_json.
     set (O := dict_of ((K_TYPE, JStr c) :: map (vmap (serialize enc true)) fl)) in *.
@@ -888,19 +896,20 @@ Section RT.
       rewrite Forall_forall in IH. apply (IH (k, x) Hx). exact (forallb_In _ _ _ Hd Hx).
   Qed.
 
-  Theorem roundtrip_pipeline : forall c fl, let v := VData c fl in
+  Theorem roundtrip_pipeline_ok : forall c fl, let v := VData c fl in
     has_type' v TAny = true -> keys_not_markers v = true -> no_other v = true ->
+    payloads_ok okb v = true ->
     exists w, pipeline enc dec isspace R v = Some w /\ w = canon v
               /\ to_json enc w = to_json enc v /\ class_of w = Some c
               /\ (dict_keys_distinct v = true -> payloads w = payloads v)
               /\ (forall b, serialize enc b w = serialize enc b v).
   Proof.
-    intros c fl v H K Nn. exists (canon v).
+    intros c fl v H K Nn B. exists (canon v).
     assert (TJ : to_json enc v = serialize enc true v).
     { unfold v, to_json, serialize_extraction. rewrite serialize_data. reflexivity. }
     split.
     { unfold pipeline, json_text_roundtrip. rewrite TJ. rewrite (dumps_ok true v Nn).
-      rewrite <- TJ. exact (roundtrip_top c fl H K). }
+      rewrite <- TJ. exact (roundtrip_top_ok c fl H K B). }
     split; [reflexivity|].
     split.
     { unfold to_json, serialize_extraction. rewrite serialize_canon. reflexivity. }
@@ -911,6 +920,44 @@ Section RT.
     intro b. apply serialize_canon.
   Qed.
 End RT.
+
+(* the versions under the unconditional codec law *)
+Lemma payloads_ok_true : forall v, payloads_ok (fun _ => true) v = true.
+Proof.
+  induction v as [| | | | | | | |l IH|l IH|l IH|kvs IH|c fl IH|] using val_ind'; try reflexivity;
+    cbn [payloads_ok]; apply forallb_forall; rewrite Forall_forall in IH; intros x Hx; exact (IH x Hx).
+Qed.
+
+Theorem roundtrip_value :
+  forall enc dec isspace R, (forall b, dec (enc b) = Some b) -> registry_wf R = true ->
+  forall v T, has_type isspace R v T = true -> keys_not_markers v = true ->
+    deser dec isspace R false (serialize enc true v) T = Some (canon v).
+Proof.
+  intros enc dec isspace R law Rwf v T H K.
+  exact (roundtrip_value_ok enc dec isspace R (fun _ => true) (fun b _ => law b) Rwf v T H K (payloads_ok_true v)).
+Qed.
+
+Theorem roundtrip_top :
+  forall enc dec isspace R, (forall b, dec (enc b) = Some b) -> registry_wf R = true ->
+  forall c fl, has_type isspace R (VData c fl) TAny = true -> keys_not_markers (VData c fl) = true ->
+    from_json dec isspace R (to_json enc (VData c fl)) = Some (canon (VData c fl)).
+Proof.
+  intros enc dec isspace R law Rwf c fl H K.
+  exact (roundtrip_top_ok enc dec isspace R (fun _ => true) (fun b _ => law b) Rwf c fl H K (payloads_ok_true _)).
+Qed.
+
+Theorem roundtrip_pipeline :
+  forall enc dec isspace R, (forall b, dec (enc b) = Some b) -> registry_wf R = true ->
+  forall c fl, let v := VData c fl in
+    has_type isspace R v TAny = true -> keys_not_markers v = true -> no_other v = true ->
+    exists w, pipeline enc dec isspace R v = Some w /\ w = canon v
+              /\ to_json enc w = to_json enc v /\ class_of w = Some c
+              /\ (dict_keys_distinct v = true -> payloads w = payloads v)
+              /\ (forall b, serialize enc b w = serialize enc b v).
+Proof.
+  intros enc dec isspace R law Rwf c fl v H K Nn.
+  exact (roundtrip_pipeline_ok enc dec isspace R (fun _ => true) (fun b _ => law b) Rwf c fl H K Nn (payloads_ok_true _)).
+Qed.
 
 Print Assumptions val_ind'.
 Print Assumptions roundtrip_value.
